@@ -230,6 +230,27 @@ def run_e2e(case, stats, viol):
             tbl[nm] = [{'name': 'test_%s' % rng.choice('abcxyz') + str(i),
                         'kind': 'pass'} for i in range(rng.randint(1, 4))]
         spec = gen.simple_world(prefix, layers, tbl)
+        stitched = rng.random() < 0.35
+        extra_argv = []
+        if stitched:
+            # a directory that is knit into a package from elsewhere
+            # (--package-path DIR PACKAGE): its test modules are named
+            # PACKAGE.<relative name>, and that is the name -m filters
+            kp = prefix + '_kp'
+            spec.setdefault('extra_files', []).append({
+                'file': kp + '/__init__.py',
+                'content': 'import os\n__path__.append(os.path.join('
+                           'os.path.dirname(os.path.dirname(__file__)), '
+                           '"x-stitched"))\n'})
+            for sub in ('sub', 'ext'):
+                spec['modules'].append({
+                    'name': '%s.%s.tests' % (kp, sub),
+                    'file': 'x-stitched/%s/tests.py' % sub,
+                    'suite': {'t': 'suite', 'ch': [{
+                        't': 'class', 'name': 'TestK' + sub,
+                        'tests': [{'name': 'test_k%d' % i, 'kind': 'pass'}
+                                  for i in range(rng.randint(1, 2))]}]}})
+            stats['stitched_worlds'] = stats.get('stitched_worlds', 0) + 1
         all_ids = [vworld.test_str(t[0]) for t in vworld.iter_tests(spec)]
         mods = [m['name'] for m in spec['modules']]
         lnames = [vworld.full_layer_name(spec, l) for l in tbl]
@@ -256,11 +277,14 @@ def run_e2e(case, stats, viol):
             opts['layer'] = [pick(lnames) for _ in range(rng.randint(1, 2))]
         want = vworld.expected_tests(spec, opts)
         root = vworld.materialise(spec)
+        if stitched:
+            extra_argv = ['--package-path',
+                          os.path.join(root, 'x-stitched'), kp]
         try:
             nv = len(ztr_monitor.VIOLATIONS)
             ev0 = ztr_monitor.COUNTERS.get('eval.accept', 0)
             r = runcase.run_inproc(
-                ['--path', root] + vworld.opts_to_argv(opts),
+                ['--path', root] + extra_argv + vworld.opts_to_argv(opts),
                 os.path.join(root, 'world.json'),
                 os.path.join(root, 'trace.jsonl'), purge=(prefix,))
             stats['e2e_runs'] += 1
@@ -276,6 +300,8 @@ def run_e2e(case, stats, viol):
                              'mech': 'filter-spec', 'detail': detail})
             ran = sorted(e['id'] for e in r.events if e['k'] == 'test.body')
             exp = sorted(t for ts in want.values() for t in ts)
+            stats['stitched_tests_ran'] = stats.get('stitched_tests_ran', 0) \
+                + sum(1 for t in ran if '_kp.' in t)
             if ran != exp:
                 viol.append({'rule': 'executed!=accepted',
                              'mech': 'filter-e2e',
